@@ -182,13 +182,15 @@ void run_api(const Value& plan, Result& r)
         // statistics are well defined
         if (a.its < 0 || a.its > o.max_iterations)
             r.fail("C20.iteration_count_out_of_range", fmt("its=%d max=%d; %s", a.its, o.max_iterations, r.signature.c_str()));
-        if (!std::isfinite(a.rho) && a.finite)
-            r.fail("C20.reduction_factor_not_finite", fmt("rho=%g its=%d; %s", a.rho, a.its, r.signature.c_str()));
-        // inside the configuration set of C01 the solution is finite
+        // inside the configuration set of C01 the solution and the reduction factor are finite (outside it, e.g. with
+        // zero smoothing steps, the iteration may diverge and the factor legitimately overflows: that is still a
+        // well-defined function of the solve, which the poison differential below checks)
         const bool c01 = o.pre >= 1 && o.post >= 1 && o.aniso == 0 && plan.at("bad_enum").as_int(-1) < 0 &&
                          o.extrapolation != 2;
         if (c01 && !a.finite)
             r.fail("C20.solution_not_finite", r.signature);
+        if (c01 && !std::isfinite(a.rho))
+            r.fail("C20.reduction_factor_not_finite", fmt("rho=%g its=%d; %s", a.rho, a.its, r.signature.c_str()));
     }
     // memory-poison differential (fast / trace flavours: our allocator)
     if (!is_asan()) {
